@@ -505,6 +505,11 @@ func ownerField(baseType types.Type, i int) string {
 	if p, ok := t.Underlying().(*types.Pointer); ok {
 		t = p.Elem()
 	}
+	if st, ok := t.Underlying().(*types.Struct); ok && i < st.NumFields() {
+		if owner, moved := promotedOwner[st.Field(i)]; moved {
+			return owner + "." + st.Field(i).Name()
+		}
+	}
 	name := "?"
 	if n, ok := t.(*types.Named); ok {
 		name = n.Obj().Name()
@@ -533,13 +538,31 @@ func loadedField(v ssa.Value) (string, ssa.Value) {
 	v = strip(v)
 	if u, ok := v.(*ssa.UnOp); ok && u.Op == token.MUL {
 		if fa, ok := u.X.(*ssa.FieldAddr); ok {
-			return fieldRef(fa), fa.X
+			base := fa.X
+			if promotedField(fa.X.Type(), fa.Field) {
+				if outer, isFA := fa.X.(*ssa.FieldAddr); isFA { // &t.E.f: the object is t
+					base = outer.X
+				}
+			}
+			return fieldRef(fa), base
 		}
 	}
 	if f, ok := v.(*ssa.Field); ok {
 		return fieldRef(f), f.X
 	}
 	return "", nil
+}
+
+func promotedField(baseType types.Type, i int) bool {
+	t := baseType
+	if p, ok := t.Underlying().(*types.Pointer); ok {
+		t = p.Elem()
+	}
+	if st, ok := t.Underlying().(*types.Struct); ok && i < st.NumFields() {
+		_, moved := promotedOwner[st.Field(i)]
+		return moved
+	}
+	return false
 }
 
 // storesTo lists Store instructions in fn whose address is a FieldAddr of "Type.field".
